@@ -36,6 +36,10 @@ func ruleRejectedDocs() map[string][]byte {
 		"MACRO @mm\n(\n  200 any\n)\nMACRO @mm\n(\n  201 any\n)\n",
 		"TYPE @w\n  { // {allOf: \"@t\"}\n    \"k\": 2\n  }\n",
 		"SERVER @s2\n",
+		// a Tags directive that no interaction uses (every method of the URL has its own) names a tag that exists only as the path
+		// tag of another interaction: not declared, so not found - wherever the other interaction stands
+		"GET /cats\n  200 any\nURL /dogs\n  Tags @cats\n  GET\n    Tags @g\n    200 any\n",
+		"URL /birds\n  Tags @fish\nGET /fish\n  200 any\n",
 	}
 	out := map[string][]byte{}
 	for i, f := range faults {
